@@ -778,6 +778,96 @@ func stopWhileOffline(r *h.Run, idx int, kind string, ncmd int) {
 	r.NonTrivial(fmt.Sprintf("offline-stop:%s:%d:%d", kind, ncmd, idx%7))
 }
 
+// stopDuringFailingResubscribe: the service holds a subscription, loses its
+// connection, and from then on every connection is accepted but its
+// resubscription fails (the broker drops the connection at the SUBSCRIBE, or
+// never answers it). Stop is called in the middle of that cycle and must return.
+func stopDuringFailingResubscribe(r *h.Run, idx int, mode string) {
+	r.Journal("C17 stop-during-failing-resubscribe #%d mode=%s", idx, mode)
+	srv := ch.NewServer()
+	var mu sync.Mutex
+	failed, subscribed := 0, false
+	srv.Prep = func(c *ch.Conn) {
+		// connections made after the first SUBACK went out are the failing ones
+		mu.Lock()
+		failing := subscribed
+		mu.Unlock()
+		c.Peer.AutoReply = ch.Broker(failing, func(in packet.Generic, def []packet.Generic) []packet.Generic {
+			if _, ok := in.(*packet.Subscribe); ok {
+				mu.Lock()
+				if failing {
+					failed++
+				} else {
+					subscribed = true
+				}
+				mu.Unlock()
+				if failing {
+					if mode == "drop" {
+						c.Peer.Close()
+					}
+					return nil
+				}
+			}
+			return def
+		})
+	}
+	s := client.NewService(100)
+	s.MinReconnectDelay, s.MaxReconnectDelay = time.Millisecond, 3*time.Millisecond
+	s.ConnectTimeout, s.DisconnectTimeout, s.ResubscribeTimeout = 40*time.Millisecond, 20*time.Millisecond, 20*time.Millisecond
+	s.Start(ch.Config(srv, "c17-resub", false))
+	if err := s.Subscribe("o/#", 1).Wait(bh.Watchdog); err != nil {
+		r.Inconclusive("stop-during-failing-resubscribe: the first subscription did not complete: " + err.Error())
+		s.Stop(true)
+		return
+	}
+	conns := srv.Conns()
+	if len(conns) == 0 {
+		r.Inconclusive("stop-during-failing-resubscribe: no connection")
+		s.Stop(true)
+		return
+	}
+	conns[len(conns)-1].Peer.Close()
+	want := 1 + idx%3
+	for i := 0; i < 5000; i++ { // bounded wait for the failing cycle to be under way
+		mu.Lock()
+		f := failed
+		mu.Unlock()
+		if f >= want {
+			break
+		}
+		time.Sleep(time.Millisecond)
+	}
+	mu.Lock()
+	f := failed
+	mu.Unlock()
+	if f < want {
+		r.Inconclusive(fmt.Sprintf("stop-during-failing-resubscribe: only %d failed resubscriptions were seen", f))
+		s.Stop(true)
+		return
+	}
+	time.Sleep(time.Duration(idx%5) * time.Millisecond)
+	done := make(chan struct{})
+	go func() { s.Stop(true); close(done) }()
+	select {
+	case <-done:
+	case <-time.After(10 * time.Second):
+		// the service may keep reconnecting meanwhile (events are still logged):
+		// what is confirmed is that the Stop call itself stays parked
+		confirmed, stacks := stuck.Confirm(time.Second, func() int { return 0 }, "client.(*Service).Stop")
+		if confirmed {
+			mu.Lock()
+			f = failed
+			mu.Unlock()
+			r.Violation("hang/Stop(true)/failing-resubscribe", fmt.Sprintf("stop-during-failing-resubscribe (%s): Stop(true) did not return while every resubscription fails (%d failed so far); parked: %s", mode, f, stacks[0]), map[string]interface{}{"mode": mode, "event_log_tail": srv.Log.Dump(40)})
+		} else {
+			r.Inconclusive("stop-during-failing-resubscribe: Stop slow")
+		}
+		return
+	}
+	r.Eval()
+	r.NonTrivial(fmt.Sprintf("failing-resubscribe-stop:%s:%d:%d", mode, want, idx%5))
+}
+
 func render(m map[string]packet.QOS) string {
 	var ks []string
 	for k, v := range m {
@@ -806,7 +896,7 @@ func schedules(depth int) [][]string {
 func TestCheck(t *testing.T) {
 	r := h.New("C17", "fault_enumeration")
 	depth := r.Pick(2, 3)
-	r.Rule(fmt.Sprintf("client.Service against a scripted broker that fails on command: every failure schedule of length <= %d (sampled length up to 5 in thorough) over {dial refused, CONNECT unsendable, no CONNACK, CONNACK refused, drop after k packets, SUBACK failure code, drop during resubscribe} followed by healthy connections, combined with API call sequences (subscribe/unsubscribe over 3 filters with changing QoS, publishes) issued before Start, racing with the failures from 1-4 goroutines and after coming online; a fence publish through the FIFO command queue marks rest; then the scripted broker's subscription set of the current connection must equal the set implied by all calls, QoS>0 publish futures must have completed, one more connection loss at rest must restore the same set, Stop(true|false) must return, Stop(true) must leave no future unresolved, a second Stop returns false, Start again must reconnect and work. Non-trivial = schedules with >= 1 failure and >= 1 subscription; distinct by scenario", depth))
+	r.Rule(fmt.Sprintf("client.Service against a scripted broker that fails on command: every failure schedule of length <= %d (sampled length up to 5 in thorough) over {dial refused, CONNECT unsendable, no CONNACK, CONNACK refused, drop after k packets, SUBACK failure code, drop during resubscribe} followed by healthy connections, combined with API call sequences (subscribe/unsubscribe over 3 filters with changing QoS, publishes) issued before Start, racing with the failures from 1-4 goroutines and after coming online; a fence publish through the FIFO command queue marks rest; then the scripted broker's subscription set of the current connection must equal the set implied by all calls, QoS>0 publish futures must have completed, one more connection loss at rest must restore the same set, Stop(true|false) must return (also when called while every connection is accepted and every resubscription fails, by a drop or by silence), Stop(true) must leave no future unresolved, a second Stop returns false, Start again must reconnect and work. Non-trivial = schedules with >= 1 failure and >= 1 subscription; distinct by scenario", depth))
 	r.Assume("subscribe/unsubscribe futures are not required to complete across a reconnect (SUBSCRIBE is not retransmitted); service timeouts are 40 ms, the healthy scripted broker answers at once")
 	rng := r.Rand("c17")
 	filters := []string{"f/1", "f/2", "f/+"}
@@ -871,6 +961,9 @@ func TestCheck(t *testing.T) {
 		stopWhileOffline(r, i, []string{"dial-refused", "no-connack"}[i%2], 1+i%9)
 	})
 	r.Count("stop_while_offline_runs", int64(nOff))
+	nRes := r.Pick(30, 1000)
+	h.Parallel(nRes, 8, func(i int) { stopDuringFailingResubscribe(r, i, []string{"drop", "silent"}[i%2]) })
+	r.Count("stop_during_failing_resubscribe_runs", int64(nRes))
 	nRace := r.Pick(120, 6000)
 	h.Parallel(nRace, 16, func(i int) { startStopRace(r, i) })
 	r.Count("start_stop_race_runs", int64(nRace))
